@@ -1,5 +1,6 @@
 import Lean.Data.Json
 import MontePyVerif.Model.ListNode
+import MontePyVerif.Model.ShortcutParse
 import MontePyVerif.Spec.Shortcut
 /-! Line-protocol driver for C08 (units U-listnode and the Spec reader).
     `{"op":"update", "shortcuts":[..], "vals":[..]}` → node list, text and words of the model, plus the Spec's verdict
@@ -80,6 +81,34 @@ def specJson (text : String) (vals : List (Option Rat)) : Json :=
   | some vs => Json.mkObj [("read", Json.arr (vs.map valJson).toArray), ("ok", MontePyVerif.Spec.Shortcut.matchesAll vs vals),
       ("n", toJson vs.length)]
 
+open MontePyVerif.Model.ShortcutParse in
+def getTok (j : Json) : Except String PTok := do
+  let a ← j.getArr?
+  let name ← (← (a[0]?.elim (throw "tok") pure)).getStr?
+  let arg := a[1]?.getD Json.null
+  let cnt : Except String (Option Nat) := if arg.isNull then pure none else (arg.getNat?).map some
+  match name with
+  | "num" => return PTok.num (← getRat arg)
+  | "mul" => return PTok.mul (← getRat arg)
+  | "rep" => return PTok.rep (← cnt)
+  | "jmp" => return PTok.jmp (← cnt)
+  | "lin" => return PTok.lin (← cnt)
+  | "log" => return PTok.log (← cnt)
+  | _ => throw s!"tok {name}"
+
+open MontePyVerif.Model.ShortcutParse in
+def pvalJson : PVal → Json
+  | .num x => ratJson x
+  | .jump => Json.str "J"
+  | .logv a b n k => Json.mkObj [("log", Json.arr #[ratJson a, ratJson b, toJson n, toJson k])]
+
+open MontePyVerif.Model.ShortcutParse in
+def pitemJson : PItem → Json
+  | .value x => Json.mkObj [("v", ratJson x)]
+  | .sc k ns =>
+    let kn := match k with | .rep => "rep" | .jmp => "jmp" | .mul => "mul" | .lin => "lin" | .log => "log"
+    Json.mkObj [("sc", kn), ("vals", Json.arr (ns.map pvalJson).toArray)]
+
 def runCase (j : Json) : Except String Json := do
   let op ← (← fld j "op").getStr?
   match op with
@@ -88,12 +117,21 @@ def runCase (j : Json) : Except String Json := do
     let scs ← scs.toList.mapM getSc
     let vals ← (← fld j "vals").getArr?
     let vals ← vals.toList.mapM getLeaf
-    let items := updateWithNewValues scs vals
+    let own ← match j.getObjVal? "own" with
+      | .ok o => do let a ← o.getArr?; a.toList.mapM getLeaf
+      | .error _ => pure []
+    let items := updateWithNewValuesFull scs own vals
     let f := format items
     return Json.mkObj [("items", Json.arr (items.map itemJson).toArray), ("text", f.text),
       ("words", Json.arr (f.words.map wordJson).toArray),
       ("flat", toJson ((flatten items).map (·.id))),
       ("spec", specJson f.text ((flatten items).map (·.val)))]
+  | "parse" =>
+    let toks ← (← fld j "toks").getArr?
+    let toks ← toks.toList.mapM getTok
+    match MontePyVerif.Model.ShortcutParse.parseList toks with
+    | none => return Json.mkObj [("items", Json.null)]
+    | some items => return Json.mkObj [("items", Json.arr (items.map pitemJson).toArray)]
   | "spec" =>
     let text ← (← fld j "text").getStr?
     let vals ← (← fld j "vals").getArr?
